@@ -79,3 +79,178 @@ package items
 //@     invariant [conflicts] nonempty(conflictMap) == some(j, 0, range_i1, some(k, 0, range_i1, compete(cand(this, symbol, j), cand(this, symbol, k))))
 //@   loop 2
 //@     invariant [count] len(conflicts) == range_i2
+//@
+//@ # ---- the LR(1) closure (C02, C04): the returned set is closed under the closure rule ----
+//@ # The key of an item inside a set: a function of production index, dot position and look-ahead (rendered with
+//@ # fmt.Sprintf, trusted to be a function of these three)
+//@ specfun ItemKey(prodIdx int, pos int, following string) string
+//@ spec itemWF(it *Item) bool = it != nil && it.key == ItemKey(it.ProdIdx, it.Pos, it.FollowingSymbol) && 0 <= it.Pos && it.Pos <= it.Len && it.Len == len(it.Body) && cap(it.Body) == it.Len && it.Prod != nil && it.Prod.Body != nil && len(it.Prod.Body.Symbols) > 0
+//@   | && imp(it.Pos < it.Len, it.ExpectedSymbol == it.Body[it.Pos])
+//@
+//@ func NewItem
+//@   prop C02 C04
+//@   trusted
+//@   # the fields, as the body computes them (the two rendered strings come from fmt and strings.Builder)
+//@   requires [prod] prod != nil && prod.Body != nil && len(prod.Body.Symbols) > 0
+//@   ensures [fresh] result != nil && result >= old(alloc()) && itemWF(result)
+//@   ensures [fields] result.ProdIdx == prodIdx && result.Prod == prod && result.Pos == pos && result.FollowingSymbol == followingSymbol && result.Id == prod.Id
+//@   ensures [len] result.Len == ite(SymStr(prod.Body.Symbols[0]) == "empty", 0, len(prod.Body.Symbols))
+//@   ensures [body] all(i, 0, result.Len, result.Body[i] == SymStr(prod.Body.Symbols[i]))
+//@   assigns nothing
+//@   may_panic
+//@
+//@ # an item set lists each of its items once: the map holds exactly the keys of the listed items
+//@ spec setWF(s *ItemSet) bool = s != nil && s.imap != nil && s < alloc() && s.imap < alloc() && arr(s.Items) < alloc() && all(j, 0, len(s.Items), itemWF(s.Items[j]) && has(s.imap, s.Items[j].key))
+//@   | && forallS(k, imp(has(s.imap, k), some(j, 0, len(s.Items), s.Items[j].key == k)))
+//@
+//@ func NewItemSet
+//@   prop C02 C04
+//@   ensures [fresh] result != nil && result >= old(alloc()) && result.imap >= old(alloc()) && arr(result.Items) >= old(alloc()) && setWF(result) && len(result.Items) == 0
+//@   ensures [fields] result.Symbols == symbols && result.FS == fs && result.Prods == prods
+//@   assigns nothing
+//@
+//@ func (*ItemSet).Size
+//@   prop C02 C04
+//@   requires [this] this != nil
+//@   ensures [value] result == len(this.Items)
+//@   assigns nothing
+//@
+//@ func (*ItemSet).Contain
+//@   prop C02 C04
+//@   requires [this] this != nil && item != nil
+//@   ensures [value] result == has(this.imap, item.key)
+//@   assigns nothing
+//@
+//@ func (*ItemSet).AddItem
+//@   prop C02 C04
+//@   requires [wf] setWF(this) && all(k, 0, len(items), itemWF(items[k]))
+//@   requires [noalias] arr(items) != arr(this.Items) || len(items) == 0
+//@   ensures [wf] setWF(this) && this.imap == old(this.imap)
+//@   ensures [grow] forallS(k, imp(old(has(this.imap, k)), has(this.imap, k)))
+//@   ensures [added] all(k, 0, len(items), has(this.imap, items[k].key))
+//@   ensures [only] forallS(k, imp(has(this.imap, k), old(has(this.imap, k)) || some(j, 0, len(items), items[j].key == k)))
+//@   ensures [prefix] len(this.Items) >= old(len(this.Items)) && all(j, 0, old(len(this.Items)), this.Items[j] == old(this.Items[j]))
+//@   ensures [new-items] all(j, old(len(this.Items)), len(this.Items), some(k, 0, len(items), this.Items[j] == items[k]))
+//@   ensures [arr] (arr(this.Items) == old(arr(this.Items)) && off(this.Items) == old(off(this.Items))) || arr(this.Items) >= old(alloc())
+//@   # the elements already listed stay where they were, also in the old backing array (a caller may still range over it)
+//@   ensures [old-array] all(j, 0, old(len(this.Items)), old(this.Items)[j] == old(this.Items[j]))
+//@   assigns this.Items, mapof(this.imap), elems(this.Items)
+//@   loop 1
+//@     invariant [wf] setWF(this) && this.imap == old(this.imap)
+//@     invariant [items] all(k, 0, len(items), itemWF(items[k]))
+//@     invariant [grow] forallS(k, imp(old(has(this.imap, k)), has(this.imap, k)))
+//@     invariant [added] all(k, 0, range_i1, has(this.imap, items[k].key))
+//@     invariant [only] forallS(k, imp(has(this.imap, k), old(has(this.imap, k)) || some(j, 0, range_i1, items[j].key == k)))
+//@     invariant [prefix] len(this.Items) >= old(len(this.Items)) && all(j, 0, old(len(this.Items)), this.Items[j] == old(this.Items[j]))
+//@     invariant [new-items] all(j, old(len(this.Items)), len(this.Items), some(k, 0, range_i1, this.Items[j] == items[k]))
+//@     invariant [noalias] arr(items) != arr(this.Items) || len(items) == 0
+//@     invariant [arr] (arr(this.Items) == old(arr(this.Items)) && off(this.Items) == old(off(this.Items))) || arr(this.Items) >= old(alloc())
+//@     invariant [old-array] all(j, 0, old(len(this.Items)), old(this.Items)[j] == old(this.Items[j]))
+//@     step [witness] len(this.Items) == head(len(this.Items)) || (len(this.Items) == head(len(this.Items)) + 1 && this.Items[len(this.Items)-1] == items[range_i1])
+//@
+//@ package sort
+//@ func sort.Strings
+//@   trusted
+//@   ensures [permutation] len(x) == old(len(x)) && forallS(t, some(k, 0, len(x), x[k] == t) == old(some(k, 0, len(x), x[k] == t)))
+//@   ensures [from-old] all(k, 0, len(x), some(j, 0, len(x), x[k] == old(view(x))[j]))
+//@   assigns elems(x)
+//@ package items
+//@
+//@ # FIRST of the rest of an item followed by its look-ahead: the sequence symbols ++ [following]
+//@ spec seqAt(symbols []string, following string, i int) string = ite(i < len(symbols), symbols[i], following)
+//@ spec inF1(fs *first.FirstSets, symbols []string, following string, t string) bool = ite(t == "empty", all(j, 0, len(symbols) + 1, inFirst(fs, seqAt(symbols, following, j), "empty")),
+//@   | some(i, 0, len(symbols) + 1, inFirst(fs, seqAt(symbols, following, i), t) && all(j, 0, i, inFirst(fs, seqAt(symbols, following, j), "empty"))))
+//@
+//@ func first1
+//@   prop C02 C04
+//@   requires [fs] firstSets != nil && forallS(s, imp(has(firstSets.firstSets, s), 0 <= firstSets.firstSets[s] && firstSets.firstSets[s] < alloc()))
+//@   requires [full] cap(symbols) == len(symbols)
+//@   ensures [fresh] arr(result) >= old(alloc())
+//@   ensures [members] all(k, 0, len(result), inF1(firstSets, symbols, following, result[k]))
+//@   ensures [complete] forallS(t, imp(inF1(firstSets, symbols, following, t), some(k, 0, len(result), result[k] == t)))
+//@   assigns nothing
+//@   loop 1
+//@     invariant [keys] arr(keys) >= old(alloc())
+//@     invariant [members] all(k, 0, len(keys), has(firsts, keys[k]))
+//@     invariant [complete] forallS(t, imp(visited(1, t), some(k, 0, len(keys), keys[k] == t)))
+//@
+//@ # t is in FIRST of the symbols after the one behind the dot, followed by the look-ahead: FIRST(y a) for [A -> x . B y, a]
+//@ # (kept folded: its definition is needed only where the result of first1 is related to it)
+//@ opaque spec needs(fs *first.FirstSets, it *Item, t string) bool = inF1(fs, it.Body[it.Pos+1:], it.FollowingSymbol, t)
+//@ # nothing to add for an item: the dot is at the end or before a terminal
+//@ spec trivialItem(c *ItemSet, it *Item) bool = it.Pos >= it.Len || IsTermF(c.Symbols, it.ExpectedSymbol)
+//@ # C02/C04, closure rule: for an item [A -> x . B y, a], every production B -> z and every terminal b in FIRST(y a), the item [B -> . z, b] is in the set
+//@ spec closedFor(c *ItemSet, it *Item, pi int) bool = imp(c.Prods[pi].Id == it.ExpectedSymbol, forallS(t, imp(needs(c.FS, it, t), has(c.imap, ItemKey(pi, 0, t)))))
+//@ spec closedItem(c *ItemSet, it *Item) bool = trivialItem(c, it) || all(pi, 0, len(c.Prods), closedFor(c, it, pi))
+//@ spec prodsWF(prods ast.SyntaxProdList) bool = all(p, 0, len(prods), prods[p] != nil && prods[p].Body != nil && len(prods[p].Body.Symbols) > 0)
+//@ spec closureEnv(s *ItemSet) bool = s.Symbols != nil && s.FS != nil && prodsWF(s.Prods) && forallS(x, imp(has(s.FS.firstSets, x), 0 <= s.FS.firstSets[x] && s.FS.firstSets[x] < alloc()))
+//@ # the working set of Closure: a fresh object with the environment of the receiver
+//@ spec workSet(c *ItemSet, this *ItemSet, a0 int) bool = setWF(c) && c >= a0 && c.imap >= a0 && arr(c.Items) >= a0 && c.Symbols == this.Symbols && c.Prods == this.Prods && c.FS == this.FS
+//@
+//@ func (*ItemSet).Closure
+//@   prop C02 C04
+//@   requires [wf] setWF(this) && closureEnv(this)
+//@   ensures [wf] setWF(c) && c.Symbols == this.Symbols && c.Prods == this.Prods && c.FS == this.FS
+//@   ensures [superset] all(j, 0, len(this.Items), has(c.imap, this.Items[j].key))
+//@   ensures [closed] all(j, 0, len(c.Items), closedItem(c, c.Items[j]))
+//@   assigns nothing
+//@   may_panic
+//@   effort 40
+//@   loop 1
+//@     invariant [work] workSet(c, this, old(alloc()))
+//@     invariant [superset] all(j, 0, len(this.Items), has(c.imap, this.Items[j].key))
+//@     invariant [included] -1 <= included && included < len(c.Items)
+//@     invariant [closed-upto] all(j, 0, included + 1, closedItem(c, c.Items[j]))
+//@     invariant [done] again || all(j, 0, len(c.Items), closedItem(c, c.Items[j]))
+//@   loop 2
+//@     invariant [work] workSet(c, this, old(alloc()))
+//@     invariant [superset] all(j, 0, len(this.Items), has(c.imap, this.Items[j].key))
+//@     invariant [snapshot] range_n2 <= len(c.Items) && all(j, 0, range_n2, c.Items[j] == range_x2[j]) && arr(range_x2) < alloc() && imp(arr(range_x2) == arr(c.Items), off(range_x2) == off(c.Items))
+//@     invariant [nochange] again || len(c.Items) == range_n2
+//@     invariant [included] -1 <= included && included < len(c.Items)
+//@     invariant [closed-upto] all(j, 0, included + 1, closedItem(c, c.Items[j]))
+//@     invariant [skipped] all(j, included + 1, range_i2, trivialItem(c, c.Items[j]))
+//@   loop 3
+//@     invariant [work] workSet(c, this, old(alloc()))
+//@     invariant [superset] all(j, 0, len(this.Items), has(c.imap, this.Items[j].key))
+//@     invariant [snapshot] range_n2 <= len(c.Items) && all(j, 0, range_n2, c.Items[j] == range_x2[j]) && arr(range_x2) < alloc() && imp(arr(range_x2) == arr(c.Items), off(range_x2) == off(c.Items))
+//@     invariant [nochange] again || len(c.Items) == range_n2
+//@     invariant [included] -1 <= included && included < len(c.Items)
+//@     invariant [closed-upto] all(j, 0, included + 1, closedItem(c, c.Items[j]))
+//@     invariant [skipped] all(j, included + 1, range_i2, trivialItem(c, c.Items[j]))
+//@     invariant [partial] all(p, 0, range_i3, closedFor(c, i, p))
+//@     invariant [cur] range_i2 < len(c.Items) && c.Items[range_i2] == i && itemWF(i)
+//@   loop 4
+//@     invariant [work] workSet(c, this, old(alloc()))
+//@     invariant [superset] all(j, 0, len(this.Items), has(c.imap, this.Items[j].key))
+//@     invariant [snapshot] range_n2 <= len(c.Items) && all(j, 0, range_n2, c.Items[j] == range_x2[j]) && arr(range_x2) < alloc() && imp(arr(range_x2) == arr(c.Items), off(range_x2) == off(c.Items))
+//@     invariant [nochange] again || len(c.Items) == range_n2
+//@     invariant [included] -1 <= included && included < len(c.Items)
+//@     invariant [closed-upto] all(j, 0, included + 1, closedItem(c, c.Items[j]))
+//@     invariant [skipped] all(j, included + 1, range_i2, trivialItem(c, c.Items[j]))
+//@     invariant [partial] all(p, 0, range_i3, closedFor(c, i, p))
+//@     invariant [cur] range_i2 < len(c.Items) && c.Items[range_i2] == i && itemWF(i)
+//@     invariant [added] all(k, 0, range_i4, has(c.imap, ItemKey(pi, 0, first[k])))
+//@     invariant [first-members] reveal(needs) all(k, 0, len(first), needs(this.FS, i, first[k]))
+//@     invariant [first-complete] reveal(needs) forallS(t, imp(needs(this.FS, i, t), some(k, 0, len(first), first[k] == t)))
+//@
+//@ func (*Item).Move
+//@   prop C02 C04
+//@   requires [this] itemWF(this) && this.Pos < this.Len
+//@   ensures [fresh] next != nil && next >= old(alloc()) && itemWF(next)
+//@   ensures [fields] next.ProdIdx == this.ProdIdx && next.Pos == this.Pos + 1 && next.FollowingSymbol == this.FollowingSymbol
+//@   assigns nothing
+//@   may_panic
+//@
+//@ # C02/C04, goto rule: the successor state on X holds every item of the state with the dot moved over X, and is closed
+//@ func (*ItemSet).Goto
+//@   prop C02 C04
+//@   requires [wf] setWF(I) && closureEnv(I)
+//@   ensures [wf] setWF(result)
+//@   ensures [kernel] all(j, 0, len(I.Items), imp(I.Items[j].Pos < I.Items[j].Len && X == I.Items[j].ExpectedSymbol, has(result.imap, ItemKey(I.Items[j].ProdIdx, I.Items[j].Pos + 1, I.Items[j].FollowingSymbol))))
+//@   ensures [closed] all(j, 0, len(result.Items), closedItem(result, result.Items[j]))
+//@   assigns nothing
+//@   may_panic
+//@   loop 1
+//@     invariant [work] workSet(J, I, old(alloc())) && closureEnv(J)
+//@     invariant [kernel] all(j, 0, range_i1, imp(I.Items[j].Pos < I.Items[j].Len && X == I.Items[j].ExpectedSymbol, has(J.imap, ItemKey(I.Items[j].ProdIdx, I.Items[j].Pos + 1, I.Items[j].FollowingSymbol))))
